@@ -17,6 +17,10 @@ func c15Menu(w *mintops.W) []string {
 	np := cap2(len(w.Proofs), 3)
 	for i := 0; i < np; i++ {
 		ops = append(ops, fmt.Sprintf("swap|%d|exact", i), fmt.Sprintf("swap|%dw|exact", i))
+		if i == 0 {
+			// outputs whose B_ is spelled in upper-case hex: what is signed must be restorable under the spelling used
+			ops = append(ops, "swap|0|upperB")
+		}
 	}
 	if np >= 2 {
 		// two inputs in one request: none, the first, the second with a witness (each must be reported with its own)
@@ -55,7 +59,7 @@ func c15Menu(w *mintops.W) []string {
 		if q.Payments == 0 {
 			ops = append(ops, fmt.Sprintf("settle|%d", qi))
 		}
-		ops = append(ops, fmt.Sprintf("mint|%d|exact", qi), fmt.Sprintf("mint|%d|same", qi))
+		ops = append(ops, fmt.Sprintf("mint|%d|exact", qi), fmt.Sprintf("mint|%d|same", qi), fmt.Sprintf("mint|%d|upperB", qi))
 	}
 	if len(w.Keysets) < 2 {
 		ops = append(ops, "rotate|100")
